@@ -419,7 +419,12 @@ pub fn map_op<const N: usize>(cx: &mut Cx, m: &mut MapN<N>, op: &MapOp) -> Strin
                     // the references the predicate receives point into the container
                     cx.slot(k as *const Key as usize);
                     cx.slot(v as *const Val as usize);
-                    let keep = mask.checked_shr(k.p.cls as u32).unwrap_or(0) & 1 == 1;
+                    // masks >= 65536: a STATEFUL predicate, the answer depends on the call number
+                    let keep = if *mask >= 65536 {
+                        (mask >> (ctl::with(|c| c.calls) % 16)) & 1 == 1
+                    } else {
+                        mask.checked_shr(k.p.cls as u32).unwrap_or(0) & 1 == 1
+                    };
                     if keep {
                         v.val += *bump;
                     }
@@ -795,7 +800,11 @@ pub fn set_op<const N: usize>(cx: &mut Cx, s: &mut SetN<N>, op: &SetOp) -> Strin
                 s.retain(|k| {
                     tick();
                     log(Ev::Call(0));
-                    mask.checked_shr(k.p.cls as u32).unwrap_or(0) & 1 == 1
+                    if *mask >= 65536 {
+                        (mask >> (ctl::with(|c| c.calls) % 16)) & 1 == 1
+                    } else {
+                        mask.checked_shr(k.p.cls as u32).unwrap_or(0) & 1 == 1
+                    }
                 })
             });
             "()".into()
@@ -1244,7 +1253,11 @@ pub fn umap_op<const N: usize>(cx: &mut Cx, m: &mut Map<Key, (), N>, op: &MapOp)
                     tick();
                     log(Ev::Call(0));
                     cx.slot(k as *const Key as usize);
-                    mask.checked_shr(k.p.cls as u32).unwrap_or(0) & 1 == 1
+                    if *mask >= 65536 {
+                        (mask >> (ctl::with(|c| c.calls) % 16)) & 1 == 1
+                    } else {
+                        mask.checked_shr(k.p.cls as u32).unwrap_or(0) & 1 == 1
+                    }
                 })
             });
             "()".into()
@@ -1423,6 +1436,26 @@ pub fn umap_op<const N: usize>(cx: &mut Cx, m: &mut Map<Key, (), N>, op: &MapOp)
                 _ => return "unsupported".into(),
             }
             esc(&cx.buf.take())
+        }
+        MapOp::Drain(take, end) => {
+            let d = mm(|| m.drain());
+            consume(cx, d, *take, *end, |x: &(Key, ())| x.0.show(), Some(|cx: &mut Cx, i: &_| dbg_of(cx, i)))
+        }
+        MapOp::IntoIter(kind, take, end) => {
+            let owned = std::mem::replace(m, Map::new());
+            match kind {
+                IntoKind::Pairs => consume(cx, mm(|| owned.into_iter()), *take, *end, |x: &(Key, ())| x.0.show(),
+                                           Some(|cx: &mut Cx, i: &_| dbg_of(cx, i))),
+                IntoKind::Keys => consume(cx, mm(|| owned.into_keys()), *take, *end, |x: &Key| x.show(),
+                                          Some(|cx: &mut Cx, i: &_| dbg_of(cx, i))),
+                IntoKind::Values => consume(cx, mm(|| owned.into_values()), *take, *end, |_: &()| "()".to_string(),
+                                            Some(|cx: &mut Cx, i: &_| dbg_of(cx, i))),
+            }
+        }
+        MapOp::Drop => {
+            let owned = std::mem::replace(m, Map::new());
+            mm(|| drop(owned));
+            "()".into()
         }
         _ => "unsupported".into(),
     }
